@@ -35,6 +35,26 @@ func verifCleaned(data string) (out string, ok bool) {
 	return
 }
 
+// verifAllWS: blanks, tabs and form feeds only (the white space of the grammar)
+func verifAllWS(s string) bool {
+	r := true
+	for i := 0; i < len(s); i++ {
+		r = zzverif.And(r, zzverif.Or(s[i] == ' ', zzverif.Or(s[i] == '\t', s[i] == '\f')))
+	}
+	return r
+}
+
+// verifWSThenComment: white space (possibly none) and then a trailing comment ` #...`
+func verifWSThenComment(s string) bool {
+	r := false
+	pre := true
+	for i := 0; i+1 < len(s); i++ {
+		r = zzverif.Or(r, zzverif.And(pre, zzverif.And(s[i] == ' ', s[i+1] == '#')))
+		pre = zzverif.And(pre, zzverif.Or(s[i] == ' ', zzverif.Or(s[i] == '\t', s[i] == '\f')))
+	}
+	return r
+}
+
 func verifAllSpaces(s string) bool {
 	r := true
 	for i := 0; i < len(s); i++ {
@@ -82,7 +102,7 @@ func verifPrePassLemmas(data string) {
 		if i >= len(cn) {
 			// dropped at the end: the original line holds nothing but blanks, carriage returns or comments
 			for _, d := range ds {
-				zzverif.Assert(zzverif.Or(verifAllSpaces(d), verifCommentLine(d)), "only-empty-lines-dropped-at-end")
+				zzverif.Assert(zzverif.Or(verifAllWS(d), zzverif.Or(verifCommentLine(d), verifWSThenComment(d))), "only-empty-lines-dropped-at-end")
 			}
 			continue
 		}
@@ -126,6 +146,16 @@ func verifPrePassLemmas(data string) {
 			zzverif.Assert(d[:len(c)] == c, "cleaned-line-is-prefix")
 			rest := d[len(c):]
 			cut := zzverif.Or(verifAllSpaces(rest), zzverif.Or(zzverif.And(strings.HasPrefix(rest, " "), verifCommentLine(rest)), zzverif.And(len(c) == 0, verifCommentLine(d))))
+			if i == len(cn)-1 && k == len(ds)-1 {
+				// the end of the cleaned text: the white space in front of the removed line breaks goes with them
+				// (tabs and form feeds too), possibly in front of a removed comment
+				ws := 0
+				for ws < len(rest) && (rest[ws] == ' ' || rest[ws] == '\t' || rest[ws] == '\f') {
+					ws++
+				}
+				tail := rest[ws:]
+				cut = zzverif.Or(cut, zzverif.Or(len(tail) == 0, zzverif.And(ws > 0 && rest[ws-1] == ' ', len(tail) > 0 && tail[0] == '#')))
+			}
 			zzverif.Assert(cut, "only-comment-or-trailing-blanks-removed")
 			if len(c) > 0 {
 				zzverif.Assert(c[len(c)-1] != ' ', "trailing-blanks-removed")
@@ -150,6 +180,13 @@ func verifPrePassLemmas(data string) {
 			}
 			zzverif.Assert(same, "columns-are-preserved")
 		}
+	}
+	// the white space in front of a line break belongs to that line break (one NEWLINE token): where the final line
+	// break of the document is removed, the white space in front of it has to go as well - left behind it would be
+	// a token of its own in front of the end of the input, which the grammar does not admit after a declaration
+	if strings.HasSuffix(data, "\n") && len(cleaned) > 0 {
+		last := cleaned[len(cleaned)-1]
+		zzverif.Assert(zzverif.And(last != ' ', zzverif.And(last != '\t', last != '\f')), "white-space-of-the-removed-final-line-break-is-removed-with-it")
 	}
 	if nl := strings.Split(cleaned, "\n"); len(nl) > 1 {
 		zzverif.Assert(len(nl[len(nl)-1]) > 0, "trailing-newlines-trimmed")
